@@ -14,9 +14,12 @@ LEVEL_TEXT = ("Theorems (Lean 4): (a) in the model of a session of edit and anal
               "(`batt_restores`, over Model/Batt). That the real analyses write nothing but those caches, and leave the objects "
               "passed to them alone, is checked by correspondence: around every call of solve / rail_rep / params / limits / "
               "phases / tree / save / plot_interp / make_diag / make_hdiag in random interleavings, all public reports and deep "
-              "copies of all argument objects are compared before / after; batt_life is run with callbacks raising at every call.")
-LEVEL_NOTE = ("(a) is a statement about the cache discipline (by construction of the model, justified by inspection of every "
-              "`self.x =` in system.py / diagram.py); its tie to the code is the before/after test; (b) is proved at full "
+              "copies of all argument objects are compared before / after; an interleaving stream replays the same accepted calls on two fresh systems "
+              "with no observation in between - once with analyses interleaved, once without - followed by a delete / re-add that re-uses a node index, and "
+              "demands equal reports (`interleaving_invisible` on the implementation); the set of attributes the analysis methods can assign is re-derived "
+              "from the source of system.py on every run (harness/writeset.py) and must equal the caches the model allows; batt_life is run with callbacks raising at every call.")
+LEVEL_NOTE = ("(a) is a statement about the cache discipline (by construction of the model; the write-set it assumes is re-derived from the AST of "
+              "system.py on every run, in-place mutation through aliases is left to the dynamic snapshots); its tie to the code is the before/after and interleaving tests; (b) is proved at full "
               "strength about the batt_life model of C18")
 MODULE = "SysLoss.Props.C17"
 THEOREMS = [
@@ -266,6 +269,8 @@ def battery_part(ctx, n):
 
 
 def run(ctx):
+    from .. import writeset
+    writeset.compare(ctx)        # what the analysis methods can write, re-derived from the source on every run (the model's assumption)
     n = ctx.n(120, 2000)
     for k in range(n):
         got = desc_case(ctx) if k % 3 else hist_case(ctx)
